@@ -94,6 +94,7 @@ struct Token {
   char *filename;   // Filename
   int line_no;      // Line number
   int line_delta;   // Line number
+  bool has_line_delta; // line_delta and filename were fixed when a macro was defined or expanded
   bool at_bol;      // True if this token is at beginning of line
   bool has_space;   // True if this token follows a space character
   Hideset *hideset; // For macro expansion
